@@ -30,6 +30,7 @@ func init() {
 		"verifAssert":        apiAssert,
 		"verifCover":         apiCover,
 		"verifTry":           apiTry,
+		"verifMemo":          apiMemo,
 		"verifAnd":           func(fr *frame, a []value) value { return fr.i.vAnd(a[0], a[1]) },
 		"verifOr":            func(fr *frame, a []value) value { return fr.i.vOr(a[0], a[1]) },
 		"verifNot":           func(fr *frame, a []value) value { return fr.i.vNot(a[0]) },
@@ -336,7 +337,11 @@ func (sh *Shared) interpretable(fn *ssa.Function) bool {
 		}
 	}
 	if pkg == nil {
-		// synthetic wrappers / bound methods: follow the declared object
+		// synthetic wrappers / bound methods have generated bodies that dispatch to the real
+		// method; without a body follow the declared object
+		if fn.Synthetic != "" && fn.Blocks != nil {
+			return true
+		}
 		if obj := fn.Object(); obj != nil && obj.Pkg() != nil {
 			return sh.interpPkgs[obj.Pkg().Path()]
 		}
